@@ -1,12 +1,26 @@
 // Package danecheck runs the rows of spec/Dane.tla (printed by TLC) through the
 // real DANE code of maddy (internal/target/remote: verifyDANE,
-// daneDelivery.CheckConn, discoverTLSA) and records what it answered.
+// daneDelivery.PrepareConn / discoverTLSA / CheckConn) and records what it answered.
 //
-// Input  (VERIF_IN):  one JSON object per line {"id":N,"in":{chain,hs,lookup,recs,disc}}
-// Output (VERIF_OUT): NDJSON events {"t":id,"seq":1,"e":"Row","in":...,"out":{...}}
+// Input  (VERIF_IN):  {"id":N,"in":{"mode":"seq"|"overlap","rounds":[{chain,hs,lookup,recs,disc}...]}}
+// Output (VERIF_OUT): {"t":id,"seq":1,"e":"Row","in":...,"out":{"rounds":[{auth,refuse,temp,...}...]}}
+//
+// A row is a history of one per-message delivery object of mx_auth.dane: round k
+// is MX candidate mx<k>.example.invalid with its own TLSA RRset, DNS answers and
+// certificate chain.
+//   - one round, lookup ok/notfound/error: the outcome of the lookup is injected and
+//     the real CheckConn (verifyDANE) judges the connection;
+//   - rounds with lookup "disc": the real PrepareConn (discoverTLSA against a DNS
+//     server on loopback) and CheckConn, all rounds on the SAME delivery object.
+//     mode "seq": PrepareConn(k), CheckConn(k), then round k+1.
+//     mode "overlap": the answers about every MX are held by the DNS server;
+//     PrepareConn(1), PrepareConn(2); MX 1's answers are released and the harness
+//     waits (on the lookup-result holders, no timer) until that late lookup has
+//     delivered its result wherever the code puts it; then MX 2's answers are
+//     released and CheckConn(2) is called.
 //
 // The certificate chains are generated here with crypto/x509 (root CA ->
-// intermediate CA -> leaf; an expired leaf; a leaf for another host name; an
+// intermediate CA -> per-MX leaf; an expired leaf; a leaf for another host name; an
 // unrelated certificate for "matches nothing"), the association data of every
 // record is computed from the certificate its row names for the record's
 // selector / matching type.
@@ -31,6 +45,8 @@ import (
 	"net"
 	"os"
 	"strconv"
+	"strings"
+	"sync"
 	"testing"
 	"time"
 
@@ -43,7 +59,11 @@ import (
 	miekgdns "github.com/miekg/dns"
 )
 
-const mxName = "mx.example.invalid"
+// holdCap bounds waits that can only expire if the harness logic itself is wrong
+// or the machine is starved; expiry is reported as harness trouble (exit 2).
+const holdCap = 20 * time.Second
+
+func mxName(k int) string { return fmt.Sprintf("mx%d.example.invalid", k) }
 
 type Rec struct {
 	U     int    `json:"u"`
@@ -57,7 +77,7 @@ type Disc struct {
 	TLSA string `json:"tlsa"`
 }
 
-type In struct {
+type Round struct {
 	Chain  string `json:"chain"`
 	HS     bool   `json:"hs"`
 	Lookup string `json:"lookup"`
@@ -65,14 +85,26 @@ type In struct {
 	Disc   Disc   `json:"disc"`
 }
 
+type In struct {
+	Mode   string  `json:"mode"`
+	Rounds []Round `json:"rounds"`
+}
+
 type Row struct {
 	ID int `json:"id"`
 	In In  `json:"in"`
 }
 
+// ---- certificates ------------------------------------------------------------
+
 type pki struct {
-	certs  map[string]*x509.Certificate // leaf int root expired wrongname stranger
-	chains map[string][]*x509.Certificate
+	t        *testing.T
+	root     *x509.Certificate
+	inter    *x509.Certificate
+	interKey *ecdsa.PrivateKey
+	stranger *x509.Certificate
+	perMX    map[string]map[string][]*x509.Certificate // mx -> chain name -> chain
+	serial   int64
 }
 
 func mkCert(t *testing.T, cn string, ca bool, dnsNames []string, notBefore, notAfter time.Time,
@@ -116,35 +148,47 @@ func mkPKI(t *testing.T) *pki {
 	long0, long1 := now.Add(-24*time.Hour), now.Add(10*365*24*time.Hour)
 	root, rootKey := mkCert(t, "verif root CA", true, nil, long0, long1, nil, nil, 1)
 	inter, interKey := mkCert(t, "verif intermediate CA", true, nil, long0, long1, root, rootKey, 2)
-	leaf, _ := mkCert(t, mxName, false, []string{mxName}, long0, now.Add(365*24*time.Hour), inter, interKey, 3)
-	expired, _ := mkCert(t, mxName, false, []string{mxName}, now.Add(-2*365*24*time.Hour), now.Add(-365*24*time.Hour), inter, interKey, 4)
-	wrong, _ := mkCert(t, "other.example.invalid", false, []string{"other.example.invalid"}, long0, now.Add(365*24*time.Hour), inter, interKey, 5)
-	stranger, _ := mkCert(t, "stranger", true, nil, long0, long1, nil, nil, 6)
-	p := &pki{
-		certs: map[string]*x509.Certificate{"leaf": leaf, "int": inter, "root": root,
-			"expired": expired, "wrongname": wrong, "stranger": stranger},
+	stranger, _ := mkCert(t, "stranger", true, nil, long0, long1, nil, nil, 3)
+	p := &pki{t: t, root: root, inter: inter, interKey: interKey, stranger: stranger,
+		perMX: map[string]map[string][]*x509.Certificate{}, serial: 10}
+	p.chains(mxName(1))
+	return p
+}
+
+// chains returns what the server mx may present, generated on first use.
+func (p *pki) chains(mx string) map[string][]*x509.Certificate {
+	if c, ok := p.perMX[mx]; ok {
+		return c
 	}
-	p.chains = map[string][]*x509.Certificate{
+	t := p.t
+	now := time.Now()
+	long0 := now.Add(-24 * time.Hour)
+	p.serial += 3
+	leaf, _ := mkCert(t, mx, false, []string{mx}, long0, now.Add(365*24*time.Hour), p.inter, p.interKey, p.serial)
+	expired, _ := mkCert(t, mx, false, []string{mx}, now.Add(-2*365*24*time.Hour), now.Add(-365*24*time.Hour), p.inter, p.interKey, p.serial+1)
+	wrong, _ := mkCert(t, "other.example.invalid", false, []string{"other.example.invalid"}, long0, now.Add(365*24*time.Hour), p.inter, p.interKey, p.serial+2)
+	c := map[string][]*x509.Certificate{
 		"leaf":          {leaf},
-		"leaf_int":      {leaf, inter},
-		"leaf_int_root": {leaf, inter, root},
-		"expired":       {expired, inter, root},
-		"wrongname":     {wrong, inter, root},
+		"leaf_int":      {leaf, p.inter},
+		"leaf_int_root": {leaf, p.inter, p.root},
+		"expired":       {expired, p.inter, p.root},
+		"wrongname":     {wrong, p.inter, p.root},
 	}
 	// sanity of the generated PKI, independent of maddy
 	roots, inters := x509.NewCertPool(), x509.NewCertPool()
-	roots.AddCert(root)
-	inters.AddCert(inter)
-	if _, err := leaf.Verify(x509.VerifyOptions{DNSName: mxName, Roots: roots, Intermediates: inters}); err != nil {
+	roots.AddCert(p.root)
+	inters.AddCert(p.inter)
+	if _, err := leaf.Verify(x509.VerifyOptions{DNSName: mx, Roots: roots, Intermediates: inters}); err != nil {
 		t.Fatalf("generated leaf does not verify: %v", err)
 	}
-	if _, err := expired.Verify(x509.VerifyOptions{DNSName: mxName, Roots: roots, Intermediates: inters}); err == nil {
+	if _, err := expired.Verify(x509.VerifyOptions{DNSName: mx, Roots: roots, Intermediates: inters}); err == nil {
 		t.Fatal("generated expired leaf verifies")
 	}
-	if _, err := wrong.Verify(x509.VerifyOptions{DNSName: mxName, Roots: roots, Intermediates: inters}); err == nil {
+	if _, err := wrong.Verify(x509.VerifyOptions{DNSName: mx, Roots: roots, Intermediates: inters}); err == nil {
 		t.Fatal("generated wrong-name leaf verifies")
 	}
-	return p
+	p.perMX[mx] = c
+	return c
 }
 
 // assoc computes the certificate association data. Out-of-range selector /
@@ -169,49 +213,52 @@ func assoc(sel, mtype int, c *x509.Certificate) string {
 	return hex.EncodeToString(blob)
 }
 
-// certOf names the certificate of the row's chain a record's data is taken from.
-func (p *pki) certOf(chain, match string) *x509.Certificate {
+// certOf names the certificate of the round's chain a record's data is taken from.
+func (p *pki) certOf(mx, chain, match string) *x509.Certificate {
 	switch match {
 	case "leaf":
-		return p.chains[chain][0] // the server's own certificate (expired / wrong-name one included)
+		return p.chains(mx)[chain][0] // the server's own certificate (expired / wrong-name one included)
 	case "int":
-		return p.certs["int"]
+		return p.inter
 	case "root":
-		return p.certs["root"]
+		return p.root
 	}
-	return p.certs["stranger"]
+	return p.stranger
 }
 
-func (p *pki) tlsa(in In) []dns.TLSA {
+func (p *pki) tlsa(mx string, in Round) []dns.TLSA {
 	recs := make([]dns.TLSA, 0, len(in.Recs))
 	for _, r := range in.Recs {
 		recs = append(recs, dns.TLSA{
-			Hdr: miekgdns.RR_Header{Name: "_25._tcp." + mxName + ".", Rrtype: miekgdns.TypeTLSA,
+			Hdr: miekgdns.RR_Header{Name: "_25._tcp." + mx + ".", Rrtype: miekgdns.TypeTLSA,
 				Class: miekgdns.ClassINET, Ttl: 3600},
 			Usage: uint8(r.U), Selector: uint8(r.S), MatchingType: uint8(r.M),
-			Certificate: assoc(r.S, r.M, p.certOf(in.Chain, r.Match)),
+			Certificate: assoc(r.S, r.M, p.certOf(mx, in.Chain, r.Match)),
 		})
 	}
 	return recs
 }
 
-func (p *pki) state(in In) tls.ConnectionState {
+func (p *pki) state(mx string, in Round) tls.ConnectionState {
 	if !in.HS {
 		// no TLS: what tls.Conn.ConnectionState() / a plain connection yields
-		return tls.ConnectionState{ServerName: mxName}
+		return tls.ConnectionState{ServerName: mx}
 	}
 	return tls.ConnectionState{
 		HandshakeComplete: true,
 		Version:           tls.VersionTLS13,
-		ServerName:        mxName,
-		PeerCertificates:  p.chains[in.Chain],
+		ServerName:        mx,
+		PeerCertificates:  p.chains(mx)[in.Chain],
 	}
 }
+
+// ---- observations ------------------------------------------------------------------
 
 type out struct {
 	Auth     bool   `json:"auth"`
 	Refuse   bool   `json:"refuse"`
 	Temp     bool   `json:"temp"`
+	Observed bool   `json:"observed"` // a CheckConn was made for this round
 	Panic    bool   `json:"panic"`
 	Level    string `json:"level"`
 	Err      string `json:"err"`
@@ -219,7 +266,11 @@ type out struct {
 	RawErr   string `json:"rawErr"`   // raw verifyDANE error
 	RawCall  bool   `json:"rawCall"`  // verifyDANE was also called directly
 	RawPanic bool   `json:"rawPanic"`
-	Infra    string `json:"infra"` // harness-side trouble (DNS time-out on loopback): says nothing about maddy
+}
+
+type rowOut struct {
+	Rounds []out  `json:"rounds"`
+	Infra  string `json:"infra"` // harness-side trouble (DNS time-out on loopback, gate): says nothing about maddy
 }
 
 func levelName(l module.TLSLevel) string {
@@ -235,6 +286,7 @@ func levelName(l module.TLSLevel) string {
 }
 
 func (o *out) setConn(level module.TLSLevel, err error) {
+	o.Observed = true
 	o.Level = levelName(level)
 	if err != nil {
 		o.Err = err.Error()
@@ -244,42 +296,113 @@ func (o *out) setConn(level module.TLSLevel, err error) {
 	o.Auth = err == nil && level == module.TLSAuthenticated
 }
 
-// discovery environment: one mock DNS server per process, zones replaced per row.
-type discEnv struct {
-	srv   *mockdns.Server
-	res   *dns.ExtResolver
-	zones map[string]mockdns.Zone // shared with the server; replaced between rows only
+func isTimeout(err error) bool {
+	var ne net.Error
+	return err != nil && ((errors.As(err, &ne) && ne.Timeout()) || errors.Is(err, context.DeadlineExceeded))
 }
 
-func newDiscEnv(t *testing.T) *discEnv {
-	zones := map[string]mockdns.Zone{}
-	srv, err := mockdns.NewServerWithLogger(zones, nopLogger{}, false)
-	if err != nil {
-		t.Fatal(err)
-	}
-	addr := srv.LocalAddr().(*net.UDPAddr)
-	res, err := dns.NewExtResolver()
-	if err != nil {
-		// no usable resolv.conf in the sandbox: build the client config by hand
-		t.Fatalf("NewExtResolver: %v", err)
-	}
-	res.Cfg.Servers = []string{addr.IP.String()}
-	res.Cfg.Port = strconv.Itoa(addr.Port)
-	res.Cfg.Timeout = 5
-	res.Cfg.Attempts = 3
-	return &discEnv{srv: srv, res: res, zones: zones}
-}
+// ---- DNS: the repo's mock server behind a gate that can hold answers per MX ---------
 
 type nopLogger struct{}
 
 func (nopLogger) Printf(string, ...interface{}) {}
 
-func (e *discEnv) setZones(in In, recs []dns.TLSA) {
-	z := e.zones
-	for k := range z {
-		delete(z, k)
+type discEnv struct {
+	mock  *mockdns.Server
+	srv   *miekgdns.Server
+	res   *dns.ExtResolver
+	zones map[string]mockdns.Zone // shared with the mock server; replaced between rows only
+
+	mu   sync.Mutex
+	held map[string]chan struct{} // MX name -> closed when its answers may go out
+}
+
+func newDiscEnv(t *testing.T) *discEnv {
+	zones := map[string]mockdns.Zone{}
+	mock, err := mockdns.NewServerWithLogger(zones, nopLogger{}, false)
+	if err != nil {
+		t.Fatal(err)
 	}
-	host := mxName + "."
+	e := &discEnv{mock: mock, zones: zones, held: map[string]chan struct{}{}}
+	pc, err := net.ListenPacket("udp4", "127.0.0.1:0")
+	if err != nil {
+		t.Fatal(err)
+	}
+	e.srv = &miekgdns.Server{PacketConn: pc, Handler: miekgdns.HandlerFunc(e.serve)}
+	go e.srv.ActivateAndServe()
+	res, err := dns.NewExtResolver()
+	if err != nil {
+		t.Fatalf("NewExtResolver: %v", err)
+	}
+	addr := pc.LocalAddr().(*net.UDPAddr)
+	res.Cfg.Servers = []string{addr.IP.String()}
+	res.Cfg.Port = strconv.Itoa(addr.Port)
+	res.Cfg.Timeout = 5
+	res.Cfg.Attempts = 3
+	e.res = res
+	return e
+}
+
+func (e *discEnv) close() {
+	e.srv.Shutdown()
+	e.mock.Close()
+}
+
+// serve holds the answer while the MX the question is about is held.
+func (e *discEnv) serve(w miekgdns.ResponseWriter, m *miekgdns.Msg) {
+	if len(m.Question) > 0 {
+		q := strings.ToLower(m.Question[0].Name)
+		e.mu.Lock()
+		var ch chan struct{}
+		for mx, c := range e.held {
+			if strings.HasSuffix(q, mx+".") {
+				ch = c
+			}
+		}
+		e.mu.Unlock()
+		if ch != nil {
+			select {
+			case <-ch:
+			case <-time.After(holdCap):
+			}
+		}
+	}
+	e.mock.ServeDNS(w, m)
+}
+
+func (e *discEnv) hold(mx string) {
+	e.mu.Lock()
+	e.held[mx] = make(chan struct{})
+	e.mu.Unlock()
+}
+
+func (e *discEnv) release(mx string) {
+	e.mu.Lock()
+	if c, ok := e.held[mx]; ok {
+		close(c)
+		delete(e.held, mx)
+	}
+	e.mu.Unlock()
+}
+
+func (e *discEnv) releaseAll() {
+	e.mu.Lock()
+	for mx, c := range e.held {
+		close(c)
+		delete(e.held, mx)
+	}
+	e.mu.Unlock()
+}
+
+func (e *discEnv) clearZones() {
+	for k := range e.zones {
+		delete(e.zones, k)
+	}
+}
+
+func (e *discEnv) addZones(mx string, in Round, recs []dns.TLSA) {
+	z := e.zones
+	host := mx + "."
 	tname := "_25._tcp." + host
 	switch in.Disc.A {
 	case "ad":
@@ -309,44 +432,39 @@ func (e *discEnv) setZones(in In, recs []dns.TLSA) {
 	}
 }
 
-func runRow(t *testing.T, p *pki, env func() *discEnv, r Row) out {
-	in := r.In
-	var o out
-	recs := p.tlsa(in)
-	st := p.state(in)
-	ctx, cancel := context.WithTimeout(context.Background(), 60*time.Second)
-	defer cancel()
+// ---- running a row --------------------------------------------------------------------
 
-	func() {
-		defer func() {
-			if e := recover(); e != nil {
-				o.Panic = true
-				o.Auth, o.Refuse, o.Temp = false, false, false
-				o.Err = fmt.Sprint("panic: ", e)
-			}
-		}()
-		switch in.Lookup {
-		case "ok":
-			o.setConn(remote.VerifDANECheckConn(ctx, recs, nil, mxName, st))
-		case "notfound":
-			o.setConn(remote.VerifDANECheckConn(ctx, []dns.TLSA(nil),
-				dns.RCodeError{Name: mxName + ".", Code: miekgdns.RcodeNameError}, mxName, st))
-		case "error":
-			o.setConn(remote.VerifDANECheckConn(ctx, []dns.TLSA(nil),
-				dns.RCodeError{Name: mxName + ".", Code: miekgdns.RcodeServerFailure}, mxName, st))
-		case "disc":
-			e := env()
-			e.setZones(in, recs)
-			level, err := remote.VerifDANEDiscoverAndCheck(ctx, e.res, mxName, st)
-			var ne net.Error
-			if err != nil && ((errors.As(err, &ne) && ne.Timeout()) || errors.Is(err, context.DeadlineExceeded)) {
-				o.Infra = "DNS time-out talking to the mock server: " + err.Error()
-			}
-			o.setConn(level, err)
-		default:
-			t.Fatalf("row %d: unknown lookup %q", r.ID, in.Lookup)
+func guard(o *out, f func()) {
+	defer func() {
+		if e := recover(); e != nil {
+			*o = out{Observed: true, Panic: true, Err: fmt.Sprint("panic: ", e)}
 		}
 	}()
+	f()
+}
+
+// injected: one round, the lookup outcome is given, the real CheckConn judges.
+func runInjected(t *testing.T, p *pki, id int, in Round) out {
+	var o out
+	mx := mxName(1)
+	recs := p.tlsa(mx, in)
+	st := p.state(mx, in)
+	ctx, cancel := context.WithTimeout(context.Background(), 60*time.Second)
+	defer cancel()
+	guard(&o, func() {
+		switch in.Lookup {
+		case "ok":
+			o.setConn(remote.VerifDANECheckConn(ctx, recs, nil, mx, st))
+		case "notfound":
+			o.setConn(remote.VerifDANECheckConn(ctx, []dns.TLSA(nil),
+				dns.RCodeError{Name: mx + ".", Code: miekgdns.RcodeNameError}, mx, st))
+		case "error":
+			o.setConn(remote.VerifDANECheckConn(ctx, []dns.TLSA(nil),
+				dns.RCodeError{Name: mx + ".", Code: miekgdns.RcodeServerFailure}, mx, st))
+		default:
+			t.Fatalf("row %d: unknown lookup %q", id, in.Lookup)
+		}
+	})
 	if in.Lookup == "ok" {
 		o.RawCall = true
 		func() {
@@ -363,6 +481,111 @@ func runRow(t *testing.T, p *pki, env func() *discEnv, r Row) out {
 		}()
 	}
 	return o
+}
+
+// waitAny returns when one of the lookup-result holders has a result.
+func waitAny(ctx context.Context, fs ...remote.VerifDANELookup) bool {
+	cctx, cancel := context.WithCancel(ctx)
+	defer cancel()
+	done := make(chan struct{}, len(fs))
+	n := 0
+	for _, f := range fs {
+		if f == nil {
+			continue
+		}
+		n++
+		go func(f remote.VerifDANELookup) {
+			f.GetContext(cctx) // returns on result or on cancel
+			done <- struct{}{}
+		}(f)
+	}
+	if n == 0 {
+		return true
+	}
+	select {
+	case <-done:
+		return cctx.Err() == nil
+	case <-time.After(holdCap):
+		return false
+	}
+}
+
+// runDelivery: every round is the real PrepareConn / CheckConn on ONE delivery object.
+func runDelivery(t *testing.T, p *pki, e *discEnv, r Row) rowOut {
+	in := r.In
+	ro := rowOut{Rounds: make([]out, len(in.Rounds))}
+	ctx, cancel := context.WithTimeout(context.Background(), 90*time.Second)
+	defer cancel()
+	e.releaseAll()
+	e.clearZones()
+	states := make([]tls.ConnectionState, len(in.Rounds))
+	for k, rd := range in.Rounds {
+		mx := mxName(k + 1)
+		e.addZones(mx, rd, p.tlsa(mx, rd))
+		states[k] = p.state(mx, rd)
+	}
+	d := remote.VerifNewDANEDelivery(e.res)
+	check := func(k int) {
+		mx := mxName(k + 1)
+		guard(&ro.Rounds[k], func() {
+			level, err := d.CheckConn(ctx, module.MXNone, module.TLSNone, "example.invalid", mx, states[k])
+			if isTimeout(err) {
+				ro.Infra = "DNS time-out talking to the mock server: " + err.Error()
+			}
+			ro.Rounds[k].setConn(level, err)
+		})
+	}
+	switch in.Mode {
+	case "seq":
+		for k := range in.Rounds {
+			d.PrepareConn(ctx, mxName(k+1))
+			check(k)
+		}
+	case "overlap":
+		n := len(in.Rounds)
+		for k := 0; k < n; k++ {
+			e.hold(mxName(k + 1))
+		}
+		futs := make([]remote.VerifDANELookup, n)
+		for k := 0; k < n; k++ {
+			d.PrepareConn(ctx, mxName(k+1)) // the attempt to MX k is given up before its lookup is answered
+			futs[k] = remote.VerifDANECurrentLookup(d)
+		}
+		for k := 0; k < n-1; k++ {
+			e.release(mxName(k + 1))
+			// the late lookup of MX k has delivered its result - into its own holder or,
+			// if the code lets it, into the one CheckConn of the last MX will read
+			if !waitAny(ctx, futs[k], futs[n-1]) {
+				ro.Infra = "late lookup did not complete within the harness cap"
+			}
+		}
+		e.release(mxName(n))
+		check(n - 1)
+	default:
+		t.Fatalf("row %d: unknown mode %q", r.ID, in.Mode)
+	}
+	e.releaseAll()
+	return ro
+}
+
+func runRow(t *testing.T, p *pki, env func() *discEnv, r Row) rowOut {
+	in := r.In
+	if len(in.Rounds) == 1 && in.Rounds[0].Lookup != "disc" {
+		return rowOut{Rounds: []out{runInjected(t, p, r.ID, in.Rounds[0])}}
+	}
+	for _, rd := range in.Rounds {
+		if rd.Lookup != "disc" {
+			t.Fatalf("row %d: a history of several MXs must use lookup=disc", r.ID)
+		}
+	}
+	var ro rowOut
+	for attempt := 0; attempt < 3; attempt++ { // a starved machine may time a loopback query out
+		ro = runDelivery(t, p, env(), r)
+		if ro.Infra == "" {
+			break
+		}
+	}
+	return ro
 }
 
 func TestReplay(t *testing.T) {
@@ -393,7 +616,7 @@ func TestReplay(t *testing.T) {
 	}
 	defer func() {
 		if env != nil {
-			env.srv.Close()
+			env.close()
 		}
 	}()
 
